@@ -20,3 +20,17 @@ func MTxnCounts(env *lmdb.Env) (views, updates int) {
 	e := MEnvOf(env)
 	return e.NViews, e.NUpdates
 }
+
+// SetFault makes the n-th mutating LMDB operation from now on fail with MDB_MAP_FULL
+// (0 = no fault). Natively a no-op: a fault at an exact operation cannot be forced on real LMDB.
+func SetFault(env *lmdb.Env, n int) {}
+
+// MSetFault is the model side of SetFault.
+func MSetFault(env *lmdb.Env, n int) {
+	e := MEnvOf(env)
+	if n <= 0 {
+		e.FaultAt = 0
+		return
+	}
+	e.FaultAt = e.NOps + n
+}
